@@ -92,6 +92,11 @@ class RegexVM:
         self.poll_interval = poll_interval
         self.step_limit = step_limit
 
+        # Steps since the last poll, counted across match attempts and
+        # lookaround sub-matches: a search made of many short attempts must
+        # still reach the poll callback.
+        self._poll_steps = 0
+
         self.ignorecase = "i" in flags
         self.multiline = "m" in flags
         self.dotall = "s" in flags
@@ -153,7 +158,8 @@ class RegexVM:
         while True:
             # Check limits periodically
             step_count += 1
-            if step_count % self.poll_interval == 0:
+            self._poll_steps += 1
+            if self._poll_steps % self.poll_interval == 0:
                 if self.poll_callback and self.poll_callback():
                     raise RegexTimeoutError("Regex execution timed out")
 
@@ -645,7 +651,8 @@ class RegexVM:
 
         while True:
             step_count += 1
-            if step_count % self.poll_interval == 0:
+            self._poll_steps += 1
+            if self._poll_steps % self.poll_interval == 0:
                 if self.poll_callback and self.poll_callback():
                     raise RegexTimeoutError("Regex execution timed out")
 
@@ -758,7 +765,8 @@ class RegexVM:
 
         while True:
             step_count += 1
-            if step_count % self.poll_interval == 0:
+            self._poll_steps += 1
+            if self._poll_steps % self.poll_interval == 0:
                 if self.poll_callback and self.poll_callback():
                     raise RegexTimeoutError("Regex execution timed out")
 
